@@ -38,9 +38,14 @@ def decoder_universe():
     return U.with_defaults(defs)
 
 
+thorough_values = False
+
+
 def small_values(s, defs):
     t = {"k": "struct", "ptr": False, "s": s}
     out = [("b1", U.base_value(t, defs, 2, 0, 1)), ("b2", U.base_value(t, defs, 3, 3, 2))]
+    if thorough_values:
+        out += [("b3", U.base_value(t, defs, 3, 1, 3)), ("b4", U.base_value(t, defs, 2, 5, 1)), ("z", U.zero_struct(s, defs))]
     if defs[s].get("unk"):
         # holder types: messages that carry unknown fields (recorded while decoding, copied out at the end)
         for lbl, v in list(out):
@@ -61,6 +66,8 @@ def run(prop, tier, seed, work):
     quick = tier == "quick"
     defs = decoder_universe()
     defs_path = vlib.write_defs(work, defs)
+    global thorough_values
+    thorough_values = not quick
     cases = []
     types = ["Sc", "Co", "St", "Re", "LeafUnk", "LeafReq"]
     for s in types:
@@ -92,7 +99,7 @@ def run(prop, tier, seed, work):
     # every input over the token alphabet of spec/Decoder.tla up to a length bound (lazy-input model,
     # TLC breadth-first); the model is also checked to refine the reference decoder on each of them
     bounds = {"Sc": 7, "Co": 8, "St": 8, "Re": 9, "LeafUnk": 9, "LeafReq": 9} if quick else \
-             {"Sc": 10, "Co": 11, "St": 11, "Re": 12, "LeafUnk": 12, "LeafReq": 12}
+             {"Sc": 10, "Co": 12, "St": 12, "Re": 13, "LeafUnk": 13, "LeafReq": 13, "Leaf": 13}
     model = {}
     for ty, ml in bounds.items():
         inputs, st = decoder_model(work, defs_path, ty, ml)
@@ -112,7 +119,7 @@ def run(prop, tier, seed, work):
             scen.append({"sid": sid, "prop": prop, "vals": [], "steps": steps[i:i + 400], "tags": ["decoder-model"], "dkey": sid})
     res.extra["decoder_model"] = model
     if not quick:
-        scen.extend(random_inputs(prop, defs, types, rng, 20000))
+        scen.extend(random_inputs(prop, defs, types, rng, 150000))
     res.extra["inputs"] = len(seen)
     batches = [Batch("mutations", defs, scen)]
     suite.run_batches(res, work, batches)
